@@ -104,6 +104,9 @@ def getattr_(ex, st, base, attr, node=None):
         if k == "ext":
             yield st, Const("ext", f"{base.val}.{attr}")
             return
+        if k == "inflateobj" and attr == "decompress":
+            yield st, Const("ext", "zlib.decompressobj(-15).decompress")
+            return
         if k == "hashobj" and attr == "hexdigest":
             yield st, Const("hexdigest", base.val)
             return
